@@ -343,7 +343,10 @@ def slice_vc(vc):
 def sliced_retry(vcs, budget_s=8.0):
     """for VCs both solvers left open: decide the cone-of-influence slice.  unsat is a proof of the full VC (fewer
     assumptions); sat gives a counter-model of the slice — the dropped assumptions share no symbol with it, so it extends
-    to the full VC whenever the path itself is feasible (which the executor checked with a bounded budget)."""
+    to the full VC *if the dropped assumptions are satisfiable on their own*, which is checked here (a solver `sat` on
+    them); otherwise the VC stays unknown.  (Without that check a `pc => False` obligation - "this path cannot happen" -
+    whose goal mentions no symbol would have an empty slice and be reported as violated whenever the solvers ran out of
+    budget on the full query: a false alarm under load.)"""
     for vc in vcs:
         if vc.status != "unknown" or vc.kind == "cover":
             continue
@@ -361,6 +364,18 @@ def sliced_retry(vcs, budget_s=8.0):
         if r == z3.unsat:
             vc.status, vc.solver = "discharged", "z3(sliced)"
         elif r == z3.sat:
+            keep = {a.get_id() for a in sl}
+            dropped = [a for a in vc.pc if a.get_id() not in keep]
+            s2 = z3.Solver()
+            s2.set("timeout", int(budget_s * 1000))
+            for a in dropped:
+                s2.add(a)
+            t1 = time.time()
+            r2 = s2.check()
+            vc.secs += time.time() - t1
+            if r2 != z3.sat:
+                vc.note = (vc.note + " " if vc.note else "") + f"slice sat but the {len(dropped)} dropped assumptions were not shown satisfiable ({r2}): undecided"
+                continue
             vc.status, vc.solver = "failed", "z3(sliced)"
             vc.note = (vc.note + " " if vc.note else "") + f"counter-model of the cone-of-influence slice ({len(sl)} of {len(vc.pc)} assumptions)"
             try:
